@@ -249,6 +249,10 @@ class Model():
 
         self.assets.remove(asset)
 
+        # Release the id and the name so that they can be used again
+        self.asset_ids.discard(asset.id)
+        self.asset_names.discard(asset.name)
+
     def remove_asset_from_association(
             self,
             asset: SchemaGeneratedClass,
